@@ -261,6 +261,17 @@ def check_fail(ck, prog):
           "success = true only with allow_trailing_input or strm.avail_in == 0" if path is None else
           "success = true reachable with input left and trailing input not allowed",
           key="FAIL:no-trailing")
+    # ... and that test must see the result of the one-byte probe read that looks for trailing data
+    probe = [b.id for (b, i, c) in call_blocks(f, "io_read") if len(c["args"]) > 2 and ex.is_const(c["args"][2], 1)]
+    src = [d for n in g.nodes if n[0] in probe for (d, lab) in g.succ.get(n, ())]
+    cut3 = {(x.bid, x.pass_label) for x in gz} | {(x.bid, x.pass_label) for x in ga}
+    path3, hit3 = guard.cut_reach(g, src, cut3, lambda n: "success = true" if n[0] in sb else None) if src else (None, None)
+    ck.ob("C17-FAIL", "probe-result-tested", bool(probe) and path3 is None, common.where(f),
+          "after the one-byte probe read, success = true is reached only through a new strm.avail_in == 0 test" if probe and
+          path3 is None else
+          "coder_normal(): after io_read(pair, &in_buf, 1) (the probe for trailing data) `success = true` is reachable without "
+          "testing strm.avail_in again: a byte that follows the end of the stream is ignored, the file counts as "
+          "successfully decompressed and the source is removed", key="FAIL:probe-result-tested")
     # io_read failures break out with success false
     gr = guard.find_cmp(f, "field:avail_in", "const:18446744073709551615")
     okr = len(gr) >= 2
